@@ -180,11 +180,17 @@ impl KalmanState {
         // measurement noise's contribution to difference uncertainty increases.
         let weight = 1.0 - noise.determinant() / difference_covariance.determinant();
 
+        // Use the Joseph form of the covariance update: the short form subtracts two
+        // nearly equal numbers when the prior uncertainty is much larger than the
+        // measurement noise, which can leave a zero or negative variance behind.
+        let retained = Matrix::unit() - update_strength * measurement;
+
         (
             KalmanState {
                 state: self.state + update_strength * difference,
-                uncertainty: ((Matrix::unit() - update_strength * measurement) * self.uncertainty)
-                    .symmetrize(),
+                uncertainty: (retained * self.uncertainty * retained.transpose()
+                    + update_strength * noise * update_strength.transpose())
+                .symmetrize(),
                 time: self.time,
             }
             .correct_periodicity(period),
